@@ -176,10 +176,30 @@ func (ex *Exec) loopHead(l *Loop, b *ssa.BasicBlock, edges []edge, reachIn strin
 
 func (ex *Exec) loopBack(l *Loop, from, header *ssa.BasicBlock) {
 	vc := ex.vc
+	spec := ex.loopSpec(l)
 	if vc.discover {
+		// record which ghost variables the loop's ghost updates write (they must be havocked at the head)
+		if spec != nil {
+			for _, g := range spec.Ghost {
+				text := g.Text
+				if k := strings.LastIndex(text, " when "); k >= 0 {
+					text = text[:k]
+				}
+				if eq := topLevelAssign(text); eq >= 0 {
+					name := strings.TrimSpace(text[:eq])
+					if k := strings.Index(name, "["); k >= 0 {
+						name = name[:k]
+					}
+					if gt, ok := vc.ghostSort[name]; ok {
+						vc.comp("G:"+name, vc.vtSort(gt))
+						ex.curBlock = from
+						ex.noteWrite("G:" + name)
+					}
+				}
+			}
+		}
 		return
 	}
-	spec := ex.loopSpec(l)
 	guard := sAnd(ex.outReach[from], edgeCond(ex, from, header))
 	idx := -1
 	for i, p := range header.Preds {
